@@ -404,6 +404,25 @@ void wcvt(Rng& rng)
     }
 }
 
+// a cnl::constant<V> source (the value is a template argument; S = decltype(V)): the tagged convert functor's overload
+// for constants, and the constructor of overflow_integer<D, Tag> from a constant
+//   ccvt <path> <tag> <S> <D> v        convert<Tag, D>{}(constant<V>{})
+//   wcvt <path> <tag> cw <S> <D> v     overflow_integer<D, Tag>{constant<V>{}}
+template<class Tag, class D, auto V>
+void ccvt()
+{
+    std::string tag = TagN<Tag>::name();
+    using S = std::remove_cv_t<decltype(V)>;
+    using B = overflow_integer<D, Tag>;
+    S s = V;
+    printf(VH_TABLE " ccvt " VH_PATH " %s %s %s ", tag.c_str(), tn<S>().c_str(), tn<D>().c_str());
+    prv(s);
+    fputs(" => ", stdout);
+    VH_RUN((convert<Tag, D>{}(constant<V>{})), print_tv)
+    std::string sn = tn<S>();
+    WCV("cw", sn.c_str(), (B{constant<V>{}}), print_num)
+}
+
 // elastic_integer<ED, N> sources: digit counts that no built-in type has
 template<class Tag, int ED, class N, class D>
 void wcvt_elastic(Rng& rng)
